@@ -2,12 +2,16 @@ package main
 
 import (
 	"fmt"
+	"sync/atomic"
 	"time"
 
 	"verifharness/enc"
 	"verifharness/fakeapi"
 	. "verifharness/kobj"
 	"verifharness/sched"
+
+	"github.com/boz/kcache/filter"
+	metav1 "k8s.io/apimachinery/pkg/apis/meta/v1"
 )
 
 func init() {
@@ -552,6 +556,7 @@ func runC06(c *Ctx) {
 		var cases []enc.T
 		var sample map[string]interface{}
 		checks := 0
+		replays := i%5 == 4 // the watch also replays stretches of old history and isolated stale frames
 		dl := treeBubble(c, seed, level, nil, func(t *tree, srv *fakeapi.Server) {
 			type ckpt struct {
 				seed map[[2]string][2]int
@@ -562,6 +567,17 @@ func runC06(c *Ctx) {
 				t.ct.pert.Barrier()
 				rememberLog(srv)
 				objs := srv.Objects()
+				if replays {
+					// the watch replayed old history (no relist in these runs): the
+					// ground truth is what the root controller's cache holds
+					objs = nil
+					rl, _ := t.ct.c.Cache().List()
+					for _, o := range rl {
+						if ob, ok := objByID[ID(o)]; ok {
+							objs = append(objs, ob)
+						}
+					}
+				}
 				for _, nd := range t.nodes {
 					if nd.closed || nd.kind == nCtrl || nd.kind == nMonitor {
 						continue
@@ -610,6 +626,14 @@ func runC06(c *Ctx) {
 				switch x := c.Rng.Intn(12); {
 				case x < 5:
 					mutate(c, srv)
+					if replays && x == 0 {
+						if c.Rng.Intn(2) == 0 {
+							srv.ReplayLast(1 + c.Rng.Intn(4))
+						} else {
+							srv.ReplayStale(1 + c.Rng.Intn(2))
+						}
+						c.Stat("replay_faults", 1)
+					}
 				case x < 8:
 					pubs := t.publishers()
 					p := pubs[c.Rng.Intn(len(pubs))]
@@ -747,6 +771,157 @@ func runC06(c *Ctx) {
 		}
 		c.DistinctCase(fmt.Sprint("unread", i))
 	}
-	c.Rep.Rule = "random trees mixing all six subscribe/clone forms to depth 3 on a real controller fed by the fake watch; parent histories that move objects in and out of the filters; Refilter (new, back to earlier, equal-rebuilt, non-comparable FN) and closes of sibling subscriptions fired WITHOUT barriers, racing with readiness and in-flight events, under 3 levels of logger-driven perturbation. At barriers: every ready node's cache = its filter chain applied to the server content (also vs the extracted nested_view), deferred nodes ready iff supplied, every subscription's events since the previous barrier replay (well-formed, strictly newer updates) from its previous cache to its current cache. Plus filtered subscriptions that are used only through Cache() (Events() never read) over 140 accepted changes: caches current, Refilter not blocked. Non-trivial = scenario with >= 4 node checks."
+	// events that carry a LOWER version than the newest one a node has seen are
+	// not stale: a Refilter upstream re-creates old objects, a relist synthesises
+	// the Delete of an object at its old cached version
+	for i := 0; i < 4; i++ {
+		var problems []string
+		what := "events carrying lower versions than the newest seen (upstream Refilter; relist-synthesised Delete)"
+		c.Now(what)
+		dl := sched.Bubble(c.T, func() {
+			srv := fakeapi.New()
+			srv.Set(1, 1, labSets[2], 1) // A@1, label b
+			srv.Set(1, 2, labSets[1], 1) // B@2, label a
+			ct := newCtlWith(srv, c.Seed*1000+950+int64(i), i%3, 2*time.Second, nil)
+			t := newTree(ct, nil)
+			defer func() {
+				ct.pert.SetLevel(0)
+				ct.c.Close()
+				sched.Settle()
+				for _, n := range t.nodes {
+					if n.readerEnd != nil {
+						<-n.readerEnd
+					}
+				}
+			}()
+			ct.pert.Barrier()
+			kindP := []int{nFClone, nFClone, nDClone, nDClone}[i]
+			kindS := []int{nFSub, nDSub, nFSub, nDSub}[i]
+			var P, S *node
+			if kindP == nFClone {
+				P, _ = t.add(t.root, nFClone, fam[2])
+			} else {
+				P, _ = t.add(t.root, nDClone, nil)
+				if P != nil {
+					t.refilter(P, fam[2])
+				}
+			}
+			if P == nil {
+				problems = append(problems, "creating the filtered clone failed")
+				return
+			}
+			all := not(&Filt{Tag: FNSName, IDs: []ID2{{NS: 2, NM: 3}}})
+			if kindS == nFSub {
+				S, _ = t.add(P, nFSub, all)
+			} else {
+				S, _ = t.add(P, nDSub, nil)
+				if S != nil {
+					t.refilter(S, all)
+				}
+			}
+			direct, _ := t.add(t.root, nFSub, all)
+			if S == nil || direct == nil {
+				problems = append(problems, "creating the filtered subscriptions failed")
+				return
+			}
+			check := func(stage string) {
+				ct.pert.Barrier()
+				objs := srv.Objects()
+				for _, nd := range []*node{P, S, direct} {
+					got, err := cacheIDs(nd.cache())
+					exp := t.expectedIDs(nd, objs)
+					if err != nil || !sameInts(got, exp) {
+						problems = append(problems, fmt.Sprintf("%s: %s holds %v (err %v), its filters applied to the server content give %v", stage, nd.name(), got, err, exp))
+					}
+				}
+			}
+			check("at the start")
+			srv.Set(1, 2, labSets[1], 1) // B again: every node below P has now seen version 3
+			check("after a newer version of B")
+			t.refilter(P, fam[5]) // the clone now also accepts label b: it publishes Create A@1
+			check("after the upstream Refilter re-created A at version 1")
+			// the watch misses the deletion of A; the relist notices and publishes Delete A@1
+			srv.DropNext(1)
+			srv.Delete(1, 1)
+			time.Sleep(5 * time.Second)
+			check("after a relist noticed the deletion of A (Delete at its old version)")
+		})
+		runs++
+		c.Rep.Evaluations++
+		replay := map[string]interface{}{"scenario": what, "variant": i}
+		if dl != "" {
+			replay["deadlock"] = dl
+			c.Violation("", "hang (bubble deadlock): "+what, replay)
+		}
+		for _, p := range problems {
+			c.Violation("", p, replay)
+		}
+		c.DistinctCase(fmt.Sprint("lower-version", i))
+	}
+	// a parent event published while a Refilter is being applied (after the
+	// parent was listed, before the new filter is in place: the filter is slow)
+	// is neither in that listing nor lost: it is consumed afterwards
+	for i := 0; i < 4; i++ {
+		var problems []string
+		what := "a parent event published while a (slow) Refilter is being applied"
+		c.Now(what)
+		dl := treeBubble(c, c.Seed*1000+970+int64(i), i%3, nil, func(t *tree, srv *fakeapi.Server) {
+			kind := []int{nFSub, nFClone, nDSub, nDClone}[i]
+			var nd *node
+			if kind == nFSub || kind == nFClone {
+				nd, _ = t.add(t.root, kind, fam[2])
+			} else {
+				nd, _ = t.add(t.root, kind, nil)
+				if nd != nil {
+					t.refilter(nd, fam[2])
+				}
+			}
+			if nd == nil {
+				problems = append(problems, "creating the node failed")
+				return
+			}
+			srv.Set(2, 1, labSets[1], 1)
+			srv.Set(2, 2, labSets[2], 1)
+			t.ct.pert.Barrier()
+			var slow atomic.Bool
+			slowAll := filter.FN(func(metav1.Object) bool {
+				if slow.Load() {
+					time.Sleep(100 * time.Millisecond)
+				}
+				return true
+			})
+			slow.Store(true)
+			done := make(chan struct{})
+			go func() { nd.fs.Refilter(slowAll); close(done) }()
+			nd.filt, nd.hasFilt = fn(&Filt{Tag: FNull}), true
+			// the Refilter has listed the parent and is evaluating its slow filter
+			time.Sleep(150 * time.Millisecond)
+			srv.Set(2, 3, labSets[0], 1)
+			srv.Delete(2, 1)
+			time.Sleep(2 * time.Second)
+			slow.Store(false)
+			t.ct.pert.Barrier()
+			if !isClosed(done) {
+				problems = append(problems, "Refilter has not returned")
+			}
+			got, err := cacheIDs(nd.cache())
+			exp := t.expectedIDs(nd, srv.Objects())
+			if err != nil || !sameInts(got, exp) {
+				problems = append(problems, fmt.Sprintf("%s holds %v (err %v) after the Refilter and the events published during it; its filter applied to the server content gives %v", nd.name(), got, err, exp))
+			}
+		})
+		runs++
+		c.Rep.Evaluations++
+		replay := map[string]interface{}{"scenario": what, "variant": i}
+		if dl != "" {
+			replay["deadlock"] = dl
+			c.Violation("", "hang (bubble deadlock): "+what, replay)
+		}
+		for _, p := range problems {
+			c.Violation("", p, replay)
+		}
+		c.DistinctCase(fmt.Sprint("event-during-refilter", i))
+	}
+	c.Rep.Rule = "random trees mixing all six subscribe/clone forms to depth 3 on a real controller fed by the fake watch; parent histories that move objects in and out of the filters; Refilter (new, back to earlier, equal-rebuilt, non-comparable FN) and closes of sibling subscriptions fired WITHOUT barriers, racing with readiness and in-flight events, under 3 levels of logger-driven perturbation; in a fifth of the runs the watch also replays stretches of old history and isolated stale frames (objects re-created at older versions; the root cache is then the ground truth). At barriers: every ready node's cache = its filter chain applied to the server content (also vs the extracted nested_view), deferred nodes ready iff supplied, every subscription's events since the previous barrier replay (well-formed, strictly newer updates) from its previous cache to its current cache. Plus filtered subscriptions that are used only through Cache() (Events() never read) over 140 accepted changes: caches current, Refilter not blocked. Plus events carrying lower versions than the newest a node has seen (an upstream Refilter re-creating an old object, a relist-synthesised Delete at the old cached version): applied, not skipped. Plus parent events published while a slow Refilter is being applied (after the listing): consumed afterwards, not lost. Non-trivial = scenario with >= 4 node checks."
 	c.Rep.Stats["runs"] = runs
 }
